@@ -90,13 +90,25 @@ def run_rules(F, rule_fns):
                 rs2 = _run_rule(F, fn)
             finally:
                 os.environ["VERIF_FLAT"] = "0"
+            raw_errors = any(x.errors for x in rs)
             clean2 = not any(x.errors or [i for i in x.violations if i["key"] not in known_keys] for x in rs2)
-            if clean2:
-                for x in rs2:
-                    x.note("decided on the view with private helpers spliced in (the view as written: %s)" % (
-                        "; ".join(str(e)[:160] for y in rs for e in y.errors) or
-                        "; ".join(i["key"] for y in rs for i in y.violations if i["key"] not in known_keys)[:300]))
-                rs = rs2
+            if raw_errors:
+                # the view as written could not be read at all: a clean verdict on the other view stands (floors apply to it)
+                if clean2:
+                    for x in rs2:
+                        x.note("decided on the view with private helpers spliced in (the view as written: %s)" % (
+                            "; ".join(str(e)[:160] for y in rs for e in y.errors)))
+                    rs = rs2
+            elif not any(x.errors for x in rs2) and len(rs) == len(rs2):
+                # both views decide. The instances of a rule are independent obligations identified by their keys: an obligation
+                # shown on either view holds; one that the other view does not even state stays violated
+                for x, y in zip(rs, rs2):
+                    by_key = {i["key"]: i for i in y.instances}
+                    for n_, i in enumerate(x.instances):
+                        if not i["ok"] and i["key"] not in known_keys:
+                            j = by_key.get(i["key"])
+                            if j is not None and j["ok"]:
+                                x.instances[n_] = dict(j, verdict=j["verdict"] + " [shown on the view with private helpers spliced in]")
         results.extend(rs)
     return results
 
